@@ -435,4 +435,7 @@ class Run:
             [self.pc_code(w) for w in ws],
             [int(s.enabled(w)) for w in ws],
             None,
+            list(self.arrival),
+            list(self.admission),
+            list(self.end_order),
         ]
